@@ -31,4 +31,5 @@ INVARIANT C08all
 INVARIANT C08same
 INVARIANT C09
 INVARIANT C14
+INVARIANT C19
 CHECK_DEADLOCK FALSE
